@@ -66,6 +66,10 @@ class DecodeState:
                  byte position of the first undecoded byte after the
                  extracted object.
         """
+        if bit_length < 0:
+            # e.g., because the length was specified by a length key parameter
+            raise DecodeError(f"Objects cannot exhibit a negative bit length (is: {bit_length})")
+
         # If the bit length is zero, return "empty" values of each type
         if bit_length == 0:
             return base_data_type.python_type()
